@@ -244,6 +244,135 @@ def make_envs(repo):
 
 
 # ======================================================================
+# helper extraction: same-class method calls are inlined (two levels) so
+# that the ordering rules see through `self._helper()` statements
+
+KEEP_CALLS = {"apply_filter", "_update_config", "_check_parent_filter",
+              "_assert_filter", "rejuvenate"}
+
+
+def _clone(n):
+    if isinstance(n, list):
+        return [_clone(x) for x in n]
+    if not isinstance(n, ast.AST):
+        return n
+    new = type(n)()
+    for f in n._fields:
+        setattr(new, f, _clone(getattr(n, f, None)))
+    for a in n._attributes:
+        if hasattr(n, a):
+            setattr(new, a, getattr(n, a))
+    return new
+
+
+def _own_returns(stmts):
+    out = []
+    for st in stmts:
+        for n in walk(st):
+            if isinstance(n, ast.Return):
+                out.append(n)
+    return out
+
+
+def _inline_body(target, call):
+    """statements equivalent to the call `self.target(...)` or None"""
+    a = target.args
+    if a.vararg or a.kwarg or a.kwonlyargs or any(
+            isinstance(x, ast.Starred) for x in call.args) or any(
+            k.arg is None for k in call.keywords):
+        return None
+    params = [p.arg for p in a.args][1:]
+    if len(call.args) > len(params):
+        return None
+    bound = {}
+    for p, v in zip(params, call.args):
+        bound[p] = v
+    for k in call.keywords:
+        if k.arg not in params or k.arg in bound:
+            return None
+        bound[k.arg] = k.value
+    defaults = dict(zip(params[len(params) - len(a.defaults):], a.defaults))
+    pre = []
+    for p in params:
+        v = bound.get(p, defaults.get(p))
+        if v is None:
+            return None
+        asg = ast.Assign(targets=[ast.Name(id=p, ctx=ast.Store())],
+                         value=_clone(v))
+        ast.copy_location(asg, call)
+        ast.fix_missing_locations(asg)
+        pre.append(asg)
+    body = _clone(list(target.body))
+    if body and isinstance(body[0], ast.Expr) and isinstance(
+            body[0].value, ast.Constant) and isinstance(
+            body[0].value.value, str):
+        body = body[1:]
+    rets = _own_returns(body)
+    if rets:
+        last = body[-1] if body else None
+        if len(rets) == 1 and rets[0] is last and last.value is None:
+            body = body[:-1]
+        else:
+            return None
+    if not body:
+        p_ = ast.Pass()
+        ast.copy_location(p_, call)
+        body = [p_]
+    return pre + body
+
+
+def inline_helpers(cls, func, keep=KEEP_CALLS, depth=2):
+    """-> (copy of `func` with `self.<method>(…)` statements replaced by the
+    method bodies, names of helper calls that could not be inlined)"""
+    methods = {f.name: f for f in cls.body if isinstance(f, ast.FunctionDef)}
+    opaque = []
+
+    def helper_call(st):
+        if isinstance(st, ast.Expr) and isinstance(st.value, ast.Call):
+            c = st.value
+            if isinstance(c.func, ast.Attribute) and is_self_attr(c.func) \
+                    and c.func.attr in methods and c.func.attr not in keep \
+                    and c.func.attr != func.name:
+                if any(txt(d) in ("property", "staticmethod", "classmethod")
+                       for d in methods[c.func.attr].decorator_list):
+                    return None
+                return c
+        return None
+
+    def expand(stmts, d, stack):
+        out = []
+        for st in stmts:
+            c = helper_call(st)
+            if c is not None:
+                name = c.func.attr
+                body = None
+                if d > 0 and name not in stack:
+                    body = _inline_body(methods[name], c)
+                if body is not None:
+                    out += expand(body, d - 1, stack + (name,))
+                    continue
+                opaque.append(name)
+            if not isinstance(st, (ast.FunctionDef, ast.ClassDef,
+                                   ast.AsyncFunctionDef)):
+                for fld in ("body", "orelse", "finalbody"):
+                    v = getattr(st, fld, None)
+                    if isinstance(v, list) and v and isinstance(
+                            v[0], ast.stmt):
+                        setattr(st, fld, expand(v, d, stack))
+                for h in getattr(st, "handlers", []) or []:
+                    h.body = expand(h.body, d, stack)
+            out.append(st)
+        return out
+    new = _clone(func)
+    new.body = expand(new.body, depth, ())
+    new.parent = getattr(func, "parent", cls)
+    for node in ast.walk(new):
+        for child in ast.iter_child_nodes(node):
+            child.parent = node
+    return new, opaque
+
+
+# ======================================================================
 # R4.1 / R4.5a  ordering on the CFG
 
 def _stmts(func, pred):
@@ -287,7 +416,9 @@ class Order:
 
 
 def r41(ctx, repo):
-    af = repo.func(BASE, "RTDC_Hierarchy.apply_filter")
+    cls = repo.cls(BASE, "RTDC_Hierarchy")
+    af, opaque = inline_helpers(cls, repo.func(
+        BASE, "RTDC_Hierarchy.apply_filter"))
     o = Order(ctx, "R4.1", af)
     retr = _stmts(af, lambda s: _has_call(
         s, lambda c: last_attr(c) == "retrieve_manual_indices"))
@@ -340,6 +471,10 @@ def r41(ctx, repo):
              "were translated to root indices: exclusions made since the "
              "last refresh are lost or mapped through the new parent filter",
              avoid_edge=no_filter_yet)
+    if (not lreset or not eclear) and opaque:
+        raise AnalysisError(
+            f"RTDC_Hierarchy.apply_filter: cache invalidation not found and "
+            f"the helper call(s) {sorted(set(opaque))} could not be inlined")
     if not lreset or not eclear:
         ctx.ob("R4.1", False, "the refresh does not invalidate "
                + ("the cached length" if not lreset else "the cached events"),
@@ -416,7 +551,9 @@ def r41(ctx, repo):
 
 
 def r45a(ctx, repo):
-    cp = repo.func(BASE, "RTDC_Hierarchy._check_parent_filter")
+    cp, _opaque = inline_helpers(
+        repo.cls(BASE, "RTDC_Hierarchy"),
+        repo.func(BASE, "RTDC_Hierarchy._check_parent_filter"))
     o = Order(ctx, "R4.5", cp)
     retr = _stmts(cp, lambda s: isinstance(s, ast.Assign) and _has_call(
         s.value, lambda c: last_attr(c) == "retrieve_manual_indices"))
@@ -554,7 +691,8 @@ def is_passthrough(v):
 
 def r42(ctx, repo):
     cls = repo.cls(BASE, "RTDC_Hierarchy")
-    af = repo.func(BASE, "RTDC_Hierarchy.apply_filter")
+    af, _opaque = inline_helpers(cls, repo.func(
+        BASE, "RTDC_Hierarchy.apply_filter"))
     memo = memo_attrs(cls)
     if "_length" not in memo or "_events" not in memo:
         raise AnalysisError("RTDC_Hierarchy: memo idioms of _length / "
@@ -563,12 +701,20 @@ def r42(ctx, repo):
     # resets performed by apply_filter directly or in self-methods it calls
     direct = resets_in(af)
     callee = {}
-    for c in walk(af):
-        if isinstance(c, ast.Call) and isinstance(c.func, ast.Attribute) \
-                and is_self_attr(c.func) and c.func.attr in methods \
-                and c.func.attr != "apply_filter":
-            for a, s in resets_in(methods[c.func.attr]).items():
-                callee.setdefault(a, (c.func.attr, s))
+    todo = [(af, 0)]
+    seen = {"apply_filter"}
+    while todo:
+        f, d = todo.pop(0)
+        for c in walk(f):
+            if isinstance(c, ast.Call) and isinstance(
+                    c.func, ast.Attribute) and is_self_attr(c.func) \
+                    and c.func.attr in methods and c.func.attr not in seen:
+                seen.add(c.func.attr)
+                m = methods[c.func.attr]
+                for a, s in resets_in(m).items():
+                    callee.setdefault(a, (c.func.attr, s))
+                if d < 3:
+                    todo.append((m, d + 1))
     for x in sorted(memo):
         fn, kind, val = memo[x][0]
         if x in EXEMPT:
@@ -1430,4 +1576,75 @@ MUTANTS = list(MUTANTS) + [
       '            else:\n'
       '                break\n',
       '            break\n'), "R4.6"),
+]
+
+# helper extraction (refactoring /tmp/seed/rfout_C04/refactor3): the ordering
+# rules follow same-class method calls
+_REPOP = (
+    "        # update event index\n"
+    "        event_count = len(self)\n"
+    "        self._events.clear()\n"
+    "        self._events[\"index\"] = np.arange(1, event_count + 1)\n"
+    "        # set non-scalar column data\n"
+    "        for feat in [\"image\", \"image_bg\", \"mask\"]:\n"
+    "            if feat in self.hparent:\n"
+    "                self._events[feat] = ChildNDArray(self, feat)\n"
+    "        if \"contour\" in self.hparent:\n"
+    "            self._events[\"contour\"] = ChildContour(self)\n"
+    "        if \"trace\" in self.hparent:\n"
+    "            trdict = ChildTrace()\n"
+    "            for flname in dfn.FLUOR_TRACES:\n"
+    "                if flname in self.hparent[\"trace\"]:\n"
+    "                    trdict[flname] = ChildTraceItem(self, flname)\n"
+    "            self._events[\"trace\"] = trdict\n")
+_HELPER_HEAD = ("    def _repopulate_events(self):\n"
+                "        \"\"\"Clear the feature cache and set index and "
+                "non-scalar features\"\"\"\n")
+_UPD = "    def _update_config(self):\n"
+
+TWINS = list(TWINS) + [
+    ("cache re-population extracted into a helper method", BASE,
+     [(_REPOP, "        self._repopulate_events()\n"),
+      (_UPD, _HELPER_HEAD + _REPOP + "\n" + _UPD)]),
+    ("cache invalidation and re-population extracted, two levels", BASE,
+     [("        # Clear anything that has been cached until now\n"
+       "        self._length = None\n\n" + _REPOP,
+       "        self._invalidate()\n"),
+      (_UPD,
+       "    def _invalidate(self):\n"
+       "        self._length = None\n"
+       "        self._repopulate_events()\n\n"
+       + _HELPER_HEAD + _REPOP + "\n" + _UPD)]),
+    ("parent-change hand-over extracted into a helper", BASE,
+     [("            manual_pidx = self.filter.retrieve_manual_indices(self)\n"
+       "            self._ds_filter = None  # forces recreation of "
+       "HierarchyFilter\n"
+       "            self._assert_filter()\n"
+       "            self.filter.apply_manual_indices(self, manual_pidx)\n",
+       "            self._recreate_filter()\n"),
+      (_UPD,
+       "    def _recreate_filter(self):\n"
+       "        manual_pidx = self.filter.retrieve_manual_indices(self)\n"
+       "        self._ds_filter = None\n"
+       "        self._assert_filter()\n"
+       "        self.filter.apply_manual_indices(self, manual_pidx)\n\n"
+       + _UPD)]),
+]
+
+MUTANTS = list(MUTANTS) + [
+    ("helper re-populates the cache without clearing it", BASE,
+     [(_REPOP, "        self._repopulate_events()\n"),
+      (_UPD, _HELPER_HEAD + _REPOP.replace(
+          "        self._events.clear()\n", "") + "\n" + _UPD)], "R4."),
+    ("helper (cache refresh) called before the parent refresh", BASE,
+     [(_REPOP, ""),
+      ("        # Copy event data from hierarchy parent\n",
+       "        self._repopulate_events()\n"
+       "        # Copy event data from hierarchy parent\n"),
+      (_UPD, _HELPER_HEAD + _REPOP + "\n" + _UPD)], "R4.1"),
+    ("helper evaluates len(self) before the length reset", BASE,
+     [("        # Clear anything that has been cached until now\n"
+       "        self._length = None\n\n" + _REPOP,
+       "        self._repopulate_events()\n        self._length = None\n"),
+      (_UPD, _HELPER_HEAD + _REPOP + "\n" + _UPD)], "R4.1"),
 ]
